@@ -102,7 +102,7 @@ fn c09_ts_add(klo: i32, khi: i32) {
     }
 }
 
-//@ unit c09_last_day prop=C09,C02,C03,C17 mem=4 timeout=1200 stubs=crate::common::julian2date=>crate::verif_support::ghost_julian2date,crate::timestamp::Timestamp::extract=>crate::verif_support::stub_ts_extract,crate::timestamp::Timestamp::date=>crate::verif_support::stub_ts_date,crate::timestamp::Timestamp::time=>crate::verif_support::stub_ts_time bound="every real date x every microsecond of the day: last_day_of_month of Date and Timestamp (OracleDate: s17_od_delegation)"
+//@ unit c09_last_day prop=C09 tier=thorough mem=4 timeout=3600 stubs=crate::common::julian2date=>crate::verif_support::ghost_julian2date,crate::timestamp::Timestamp::extract=>crate::verif_support::stub_ts_extract,crate::timestamp::Timestamp::date=>crate::verif_support::stub_ts_date,crate::timestamp::Timestamp::time=>crate::verif_support::stub_ts_time bound="every real date x every microsecond of the day: last_day_of_month of Date and Timestamp (OracleDate: s17_od_delegation)"
 fn c09_last_day() {
     let t = any_tod();
     let (date, (y, m, d)) = ghost_date(1, 9999);
@@ -251,7 +251,7 @@ fn o_period(u: U) -> i32 {
     }
 }
 
-//@ unit c10_date prop=C10,C02,C03 chunks=range:0:11 quickn=3 mem=4 timeout=1500/3600 stubs=crate::common::julian2date=>crate::verif_support::ghost_julian2date bound="every real date 0001-01-01..9999-12-31 (as a triple) for the truncation unit given by the parameter (0 century, 1 year, 2 ISO year, 3 quarter, 4 month, 5 week, 6 ISO week, 7 month-anchored week, 8 day, 9 Sunday week, 10 hour, 11 minute) on Date"
+//@ unit c10_date prop=C10,C02,C03 chunks=ints:0,1,2,3,4,5,6,7,8,9,10,11 quickn=2 mem=4 timeout=1500/3600 stubs=crate::common::julian2date=>crate::verif_support::ghost_julian2date bound="every real date 0001-01-01..9999-12-31 (as a triple) for the truncation unit given by the parameter (0 century, 1 year, 2 ISO year, 3 quarter, 4 month, 5 week, 6 ISO week, 7 month-anchored week, 8 day, 9 Sunday week, 10 hour, 11 minute) on Date"
 fn c10_date(unit: u8) {
     let u = unit_of(unit);
     let (x, (y, m, d)) = ghost_date(1, 9999);
@@ -297,7 +297,7 @@ fn c10_date_mustfail() {
 }
 
 
-//@ unit c10_ts prop=C10,C02,C03,C17 chunks=range:0:11 quickn=3 mem=5 timeout=1500/3600 stubs=crate::common::julian2date=>crate::verif_support::ghost_julian2date,crate::timestamp::Timestamp::extract=>crate::verif_support::stub_ts_extract,crate::timestamp::Timestamp::date=>crate::verif_support::stub_ts_date,crate::timestamp::Timestamp::time=>crate::verif_support::stub_ts_time bound="every real date x every microsecond of the day, truncation unit = parameter, on Timestamp (OracleDate: s17_od_delegation); result compared with the Date-level boundary at midnight (C17) or the top of the hour/minute"
+//@ unit c10_ts prop=C10,C02,C03,C17 chunks=ints:8,0,1,2,3,4,5,6,7,9,10,11 quick=first:1 mem=5 timeout=1500/3600 stubs=crate::common::julian2date=>crate::verif_support::ghost_julian2date,crate::timestamp::Timestamp::extract=>crate::verif_support::stub_ts_extract,crate::timestamp::Timestamp::date=>crate::verif_support::stub_ts_date,crate::timestamp::Timestamp::time=>crate::verif_support::stub_ts_time bound="every real date x every microsecond of the day, truncation unit = parameter, on Timestamp (OracleDate: s17_od_delegation); result compared with the Date-level boundary at midnight (C17) or the top of the hour/minute"
 fn c10_ts(unit: u8) {
     let u = unit_of(unit);
     let t = any_tod();
@@ -470,6 +470,7 @@ fn call_round_od(u: U, x: OracleDate) -> crate::error::Result<OracleDate> {
 }
 
 fn c11_date_body(u: U, y00_rounds_up: bool, only_y00: bool) {
+    let covers = !only_y00;
     let (x, (y, m, d)) = ghost_date(1, 9999);
     if u == U::Century {
         kani::assume((y % 100 == 0) == only_y00);
@@ -486,15 +487,17 @@ fn c11_date_body(u: U, y00_rounds_up: bool, only_y00: bool) {
                 // either the truncation or the next boundary after it
                 let tb = o_trunc_day(u, n, y, m, d);
                 assert!(v.days() == tb || v.days() > n);
-                kani::cover!(v.days() > n || o_period(u) == 1);
+                kani::cover!(!covers || v.days() > n || o_period(u) == 1);
                 kani::cover!(v.days() <= n);
             }
             Err(_) => assert!(false),
         }
     } else {
         assert!(matches!(r, Err(Error::DateOutOfRange)));
-        kani::cover!(true);
     }
+    // a failing rounding exists for every unit that can move forward (not for day/hour/minute, nor
+    // for the years-divisible-by-100 units whose last year 9900 still has a neighbour)
+    kani::cover!(!covers || r.is_err() || o_period(u) == 1 || u == U::Week || u == U::MonthWeek);
 }
 
 //@ unit c11_date_mono prop=C11 tier=thorough chunks=ints:0,1,3,4,5,6,7,8,9,10,11 mem=4 timeout=3600 stubs=crate::common::julian2date=>crate::verif_support::ghost_julian2date bound="every pair of consecutive real dates (x, x+1), rounding unit = parameter (all but the ISO year): round(x) <= round(x+1)"
@@ -527,7 +530,7 @@ fn c11_century_y00_pinned() {
     c11_date_body(U::Century, false, true);
 }
 
-//@ unit c11_ts prop=C11,C02,C03,C17 chunks=range:0:11 quickn=3 mem=6 timeout=1800/3600 stubs=crate::common::julian2date=>crate::verif_support::ghost_julian2date,crate::timestamp::Timestamp::extract=>crate::verif_support::stub_ts_extract,crate::timestamp::Timestamp::date=>crate::verif_support::stub_ts_date,crate::timestamp::Timestamp::time=>crate::verif_support::stub_ts_time bound="every real date x every microsecond of the day, rounding unit = parameter, on Timestamp (OracleDate: s17_od_delegation); years divisible by 100 excluded for the century unit (see c11_century_y00_*)"
+//@ unit c11_ts prop=C11,C02,C03,C17 chunks=ints:8,0,1,2,3,4,5,6,7,9,10,11 quick=first:1 mem=6 timeout=1800/3600 stubs=crate::common::julian2date=>crate::verif_support::ghost_julian2date,crate::timestamp::Timestamp::extract=>crate::verif_support::stub_ts_extract,crate::timestamp::Timestamp::date=>crate::verif_support::stub_ts_date,crate::timestamp::Timestamp::time=>crate::verif_support::stub_ts_time bound="every real date x every microsecond of the day, rounding unit = parameter, on Timestamp (OracleDate: s17_od_delegation); years divisible by 100 excluded for the century unit (see c11_century_y00_*)"
 fn c11_ts(unit: u8) {
     let u = unit_of(unit);
     let t = any_tod();
